@@ -26,6 +26,13 @@ def impl_save(case):
                     want += list(tv) + list(ev)
             if lo != want:
                 fail = ('roundtrip', 'save then load of %r gave %r' % (brief(f), e2 if mf is None else brief_ints(lo)))
+            else:
+                # what save writes has no data byte above 127, so the reader's options (clamp such bytes; print what is read) change nothing
+                for clip, debug in ((True, False), (False, True), (True, True)):
+                    lo2, mf2, e3 = sc.run_load(bs, cs, clip=clip, debug=debug)
+                    if lo2 != want:
+                        fail = ('roundtrip-options', 'save then load(clip=%r, debug=%r) of %r gave %r' % (clip, debug, brief(f), e3 if mf2 is None else brief_ints(lo2)))
+                        break
     elif label in ('realtime', 'negative', 'float', 'type0'):
         # the property is read on the track as it is written: end_of_track deltas are folded into the next message first
         # (DESIGN.md section 6, readings), so a negative or float delta that the folding absorbs is not 'unstorable'
